@@ -98,9 +98,17 @@ func stripTypes(s string) string {
 func TestC16_RoundTrip(t *testing.T) {
 	r := rec(t, "C16", c16Rule)
 	rapid.Check(t, func(t *rapid.T) {
-		e := gen.FreeExpr(t, rapid.IntRange(1, 5).Draw(t, "depth"))
+		var e bx.Expr
+		if rapid.IntRange(0, 11).Draw(t, "long") == 0 {
+			e = gen.FreeLong(t)
+		} else {
+			e = gen.FreeExpr(t, rapid.IntRange(1, 5).Draw(t, "depth"))
+		}
 		rend := bx.NewRenderer(chooser(t))
 		rend.MaxParen = 3
+		if bx.Depth(e) > 12 {
+			rend.MaxParen = 0 // every parenthesis level multiplies the parse cost of what it encloses by 4
+		}
 		text, want := rend.Render(e)
 		c := &c16Case{AST: bx.Marshal(e), Text: []byte(text), TextQ: strconv.QuoteToASCII(text)}
 		c16Parse(t, "TestC16_RoundTrip", c, text, want)
